@@ -434,3 +434,75 @@ def run_nf(chk, rng, ncases, grounds=(None, None, 'ideal'), tol=1e-8, maxp=22, f
             chk.tie_broken('correspondence', 'nf', 'case %d (%s): %s' % (r['id'], r['spec']['family'], bad[0]))
     chk.stages['nf'] = dict(cases=len(cases), real_ok=len(good), real_errors=len(errs), compared=len(res), points=npts, disagreements=nbad, worst_rel_to_max=worst)
     return good, errs
+
+
+# ------------------------------------------------------------------ stage conn: the connection columns of the geometry table
+CONN_DEF = '''From PM Require Import Model.Conn.
+Definition conn_case (tol : PrimFloat.float) (os : list (@obj FNum)) (tags : list Z) : list Z :=
+  flat_map (fun c => [fst c; snd c]) (all_cper_from tags 0 (map (fun o => length (ob_segs o)) os) (scan tol [] O os)).
+'''
+def conn_cases(rng, n):
+    """antennas with and without ground, half of them with tags that are not the positions of the objects"""
+    cases = gen_cases(rng, n, (None, 'ideal', 'ideal'))
+    for c in cases:
+        sp = c['spec']
+        if rng.random() < 0.6 and all(w.get('tag') is None for w in sp['wires']) and not sp.get('sources') and not sp.get('loads') \
+                and not any(t.get('tag') is not None for t in sp.get('transforms', []) + sp.get('scales', [])):
+            tg = rng.sample(range(2, 60), len(sp['wires'])); tg.sort()
+            if rng.random() < 0.5: rng.shuffle(tg)
+            for w, t_ in zip(sp['wires'], tg): w['tag'] = t_
+    return cases
+
+def run_conn(chk, rng, ncases):
+    good, errs = _run_generic(chk, 'topo', conn_cases(rng, ncases), 'conn')
+    if not all(vo_ok(f) for f in ('Corr/TopoDriver.v', 'Model/Conn.v', 'Model/Topology.v')):
+        chk.tie_broken('correspondence', 'conn', 'model (Model/Conn.v) does not compile'); return
+    first = [True]
+    def mk(r):
+        o = r['obs']
+        _ctr[0] += 1
+        nm = 'objs_%d' % _ctr[0]
+        pre = CONN_DEF if first[0] else ''
+        first[0] = False
+        return pre + 'Definition %s := %s.\nEval vm_compute in (conn_case %s %s %s).' % (
+            nm, coq_objs(o), F(o['tol']), nm, coq_list(['(%d)' % g['tag'] for g in o['geos']]))
+    # the definition has to be in every generated file: one group at a time
+    per = max(1, (len(good) + NCPU - 1) // NCPU)
+    res = {}
+    for k in range(0, len(good), per):
+        first[0] = True
+        res.update(_eval_groups_one(chk, 'conn', good[k:k + per], mk))
+    nbad = ngnd = ntag = 0
+    for r in good:
+        if r['id'] not in res: continue
+        o = r['obs']
+        mz = [int(x) for x in re.findall(r'-?\d+', res[r['id']][0][0])]
+        rz = [v for p in o['pulses'] for v in p['c_per']]
+        gnd = any(any(p['gnd']) for p in o['pulses']); nonpos = any(g['tag'] != g['n'] + 1 for g in o['geos'])
+        ngnd += gnd; ntag += nonpos
+        chk.add_case('conn:' + json.dumps(r['spec'], sort_keys=True), len(o['geos']) > 1 or gnd, sample=dict(stage='conn', objects=len(o['geos']), ground=gnd, tags_not_positions=nonpos))
+        if mz != rz:
+            nbad += 1
+            k = next((i for i, (a, b) in enumerate(zip(mz, rz)) if a != b), min(len(mz), len(rz)))
+            chk.tie_broken('correspondence', 'conn', 'connection columns of %d objects: pulse %d column %d is %r in the geometry table, the model %r (tags %r)' % (
+                len(o['geos']), k // 2 + 1, k % 2 + 1, rz[k] if k < len(rz) else None, mz[k] if k < len(mz) else None, [g['tag'] for g in o['geos']]))
+            # a grounded half must print minus the tag of its own wire (C19: the table carries the model): decided here from the observation
+            for p in o['pulses']:
+                for h in (0, 1):
+                    tg = next(g['tag'] for g in o['geos'] if g['n'] == p['segs'][h][0])
+                    if p['gnd'][h] and p['c_per'][h] != -tg:
+                        chk.violation(dict(stage='conn', what='grounded half'), 'pulse %d: the grounded half on the wire with tag %d prints %d in the connection column'
+                                      % (p['idx'] + 1, tg, p['c_per'][h]), r['spec']); break
+    chk.stages['conn'] = dict(cases=len(good), grounded=ngnd, tags_not_positions=ntag, rejected=len(errs), disagreements=nbad)
+
+def _eval_groups_one(chk, stage, good, mk):
+    parts = [mk(r) for r in good]
+    cnt = [p.count('Eval vm_compute') for p in parts]
+    rc, out = coq_eval('%s_%d_%d' % (stage, os.getpid(), good[0]['id'] if good else 0), HEADER + '\n'.join(parts) + '\n')
+    blocks = re.findall(r'(?s)=\s*(\[.*?\])\s*:\s*list (\w+)', out)
+    if rc != 0 or len(blocks) != sum(cnt):
+        chk.tie_broken('correspondence', stage, 'model evaluation failed: ' + out[-600:]); return {}
+    res = {}; k = 0
+    for r, c in zip(good, cnt):
+        res[r['id']] = blocks[k:k + c]; k += c
+    return res
